@@ -6,19 +6,19 @@ Import ListNotations.
 (* 1. Every statement, of any nesting depth and shape, run by its canonical
       operation sequence from a state whose operand stack is at the block base,
       terminates without an ill-formed step and gives back exactly the state it
-      found — stack length, base, scope, current function and the whole chain of
+      found — stack length, base, scope, current function, label context and the whole chain of
       saved block contexts; only the fresh-identity counters advance. *)
 Theorem C16_statement_restores_state :
-  forall s b sc f sv ns nf,
-    run (compile s) (mkSt b b sc f sv ns nf) = Some (mkSt b b sc f sv (ns + nsc s) (nf + nfc s)).
+  forall s b sc f l sv ns nf,
+    run (compile s) (mkSt b b sc f l sv ns nf) = Some (mkSt b b sc f l sv (ns + nsc s) (nf + nfc s)).
 Proof. exact stmt_balanced. Qed.
 Print Assumptions C16_statement_restores_state.
 
 (* 2. ... and so does every statement list (a block body) and every function. *)
 Theorem C16_body_and_function_restore_state :
-  forall body b sc f sv ns nf,
-    run (compile_list body) (mkSt b b sc f sv ns nf) = Some (mkSt b b sc f sv (ns + nsc_list body) (nf + nfc_list body)) /\
-    run (compile_func body) (mkSt b b sc f sv ns nf) = Some (mkSt b b sc f sv (S ns + nsc_list body) (S nf + nfc_list body)).
+  forall nl body b sc f l sv ns nf,
+    run (compile_list body) (mkSt b b sc f l sv ns nf) = Some (mkSt b b sc f l sv (ns + nsc_list body) (nf + nfc_list body)) /\
+    run (compile_func nl body) (mkSt b b sc f l sv ns nf) = Some (mkSt b b sc f l sv (S ns + nsc_list body) (S nf + nfc_list body)).
 Proof. intros. split; [apply list_balanced|apply func_balanced]. Qed.
 Print Assumptions C16_body_and_function_restore_state.
 
@@ -43,8 +43,8 @@ Print Assumptions C16_close_truncates.
 
 (* ---- non-vacuity ---- *)
 Example ex_nested :
-  let s := CIf (CCons (CFor true true (CCons (CSwitch true (CCCons false (CCons (CClosure (CCons (CReturn false) CNil)) CNil)
+  let s := CIf (CCons (CFor true true (CCons (CSwitch true (CCCons false (CCons (CClosure 2 (CCons (CReturn false) CNil)) (CCons (CInline (CCons CConstExpr (CCons CCall CNil))) CNil))
                  (CCCons true (CCons CBranch CNil) CCNil))) CNil)) CNil) (EIf (CIf CNil (EBlock (CCons CDefine CNil)))) in
-  run (compile s) (mkSt 3 3 7 2 [mkFrame 1 4 2] 10 5) = Some (mkSt 3 3 7 2 [mkFrame 1 4 2] (10 + nsc s) (5 + nfc s)) /\
-  nsc s = 12 /\ nfc s = 1.
+  run (compile s) (mkSt 3 3 7 2 4 [mkFrame 1 4 2 1] 10 5) = Some (mkSt 3 3 7 2 4 [mkFrame 1 4 2 1] (10 + nsc s) (5 + nfc s)) /\
+  nsc s = 13 /\ nfc s = 2.
 Proof. vm_compute. repeat split. Qed.
